@@ -741,13 +741,16 @@ class History(object):
         pend_must = m.bp_hits(m.r_must, m.w_must)
         pend_may = m.bp_hits(m.r_may, m.w_may) or m.point_hits()
         cur_hit = m.bp_hits(sp if kind == "load" else (), sp if kind == "store" else ())
+        # a range ending at or wrapping 2^64 cannot be represented by the manager's (start, stop)
+        # pairs: its recording and its later breakpoint matches are left open ("may" only)
+        at_top = a + n >= (1 << 64)
         if kind == "load":
             m.r_may |= sp
-            if completed:
+            if completed and not at_top:
                 m.r_must |= sp
         else:
             m.w_may |= sp
-            if completed:
+            if completed and not at_top:
                 m.w_must |= sp
         if cur_hit:
             self.rec.count("emul_overlaps_breakpoint")
